@@ -1,18 +1,11 @@
 import Mathlib.Algebra.BigOperators.Group.Finset.Basic
 import Mathlib.Data.Finset.Card
 import Cdecao.Proofs.Gate
+import Cdecao.Spec.Score
 /-! Spike for C08: the score returned with a feasible node equals the score recomputed from the
     assignment by the documented rule. Builds on the closed forms of `Gate.lean`. -/
 open Finset
 namespace N2.G
-
-def W : Nat := 50000
-
-/-- weight of placing participant `p` into course `c` (edge weight of the adjacency matrix) -/
-def weightOf (I : Inst) (p c : Nat) : Nat :=
-  match (I.part p).choices.reverse.find? (fun ch => ch.course == c) with
-  | some ch => W - ch.penalty
-  | none => 0
 
 /-- what the node computes: matching score over non-skipped columns + instructor bonus -/
 def nodeScore (I : Inst) (X : Ctx) (w : Nat → Nat → Nat) : Nat :=
